@@ -37,6 +37,8 @@ def det(a: PolyLike) -> ndpoly:
     assert a.shape[-2] == a.shape[-1], a.shape
     dims = a.shape[-1]
     index = (slice(None),) * (a.ndim - 2)
+    if dims == 1:
+        return a[index + (0, 0)]
     if dims == 2:
         return (
             a[index + (0, 0)] * a[index + (1, 1)]
